@@ -3,6 +3,8 @@ CONSTANTS MaxItems = 1
  MaxSub = 1
  MaxBlocks = 1
  MaxDepth = 1
+ MaxLeaves = 99
+ Lean = FALSE
  Budget = 3
  IdOffs <- IdOffs3
  Rules = {"assume", "substitution", "sorry", "subproof"}
